@@ -45,6 +45,10 @@ enum SessEv {
     Ev(verif::TableEvent),
     /// after a search: the table's own counter of filled slots and its fill indicator
     Fill(usize, usize),
+    /// `resize(mb)` as the `setoption name Hash` handler calls it: number of slots afterwards
+    Resize(usize),
+    /// a panic inside resize or inside a search (the session is abandoned)
+    Panic(&'static str, String),
 }
 
 /// key ids are global to the file: (key, number of slots) -> id; `pool[id - 1]` = (slot, number of slots)
@@ -75,11 +79,13 @@ fn write_session(p: &mut Pool, sess: &[SessEv], max_slots: usize, totals: &mut [
     // slots that received an insert since the table was last emptied (ALL slots, not only the tracked ones)
     let mut filled: HashSet<usize> = HashSet::new();
     let mut filled_tracked: HashSet<usize> = HashSet::new();
+    let mut cur_slots = 0usize;
     for e in sess {
         match e {
             SessEv::New(n) => {
                 filled.clear();
                 filled_tracked.clear();
+                cur_slots = *n;
                 p.lines.push(json!({"op": "new", "slots": n}).to_string());
             }
             SessEv::Reset => {
@@ -87,6 +93,17 @@ fn write_session(p: &mut Pool, sess: &[SessEv], max_slots: usize, totals: &mut [
                 filled_tracked.clear();
                 p.lines.push(json!({"op": "reset"}).to_string());
             }
+            SessEv::Resize(n) => {
+                // the model decides whether this empties the table (size changed) or not; the harness's own bookkeeping
+                // of filled slots follows the real number of slots
+                if *n != cur_slots {
+                    filled.clear();
+                    filled_tracked.clear();
+                }
+                cur_slots = *n;
+                p.lines.push(json!({"op": "resize", "slots": n}).to_string());
+            }
+            SessEv::Panic(during, msg) => p.lines.push(json!({"op": "panic", "during": during, "msg": msg}).to_string()),
             SessEv::Fill(occ, pm) => p.lines.push(
                 json!({"op": "fill", "occ": occ, "pm": pm, "filled": filled.len(), "untracked": filled.len() - filled_tracked.len()}).to_string(),
             ),
@@ -172,6 +189,16 @@ pub fn main(rest: &[String]) -> i32 {
                 ps.reset();
                 sess.push(SessEv::Reset);
             }
+            if let Some(mb) = s["resize"].as_u64() {
+                // what the `setoption name Hash` handler does
+                let r = std::panic::catch_unwind(std::panic::AssertUnwindSafe(|| ps.tt.resize(mb as usize)));
+                if r.is_err() {
+                    sess.push(SessEv::Panic("resize", crate::LAST_PANIC.lock().unwrap().replace('\n', " ")));
+                    break;
+                }
+                options.hash_size = mb as usize;
+                sess.push(SessEv::Resize(ps.tt.verif_slots()));
+            }
             let mut depth = s["depth"].as_u64().map(|d| d as u8);
             let mut stopk = s["stopk"].as_i64().unwrap_or(0);
             if stopk < 0 {
@@ -213,6 +240,10 @@ pub fn main(rest: &[String]) -> i32 {
             verif::record_table(false);
             counted_inserts += verif::take_table_inserts();
             sess.extend(verif::take_table().into_iter().map(SessEv::Ev));
+            if res.is_err() && tout.is_some() {
+                sess.push(SessEv::Panic("search", crate::LAST_PANIC.lock().unwrap().replace('\n', " ")));
+                break;
+            }
             sess.push(SessEv::Fill(ps.tt.occupied, ps.tt.occupancy()));
             let polls = verif::polls();
             verif::set_stop_at_poll(0);
